@@ -180,7 +180,7 @@ def draw_case(seed):
     orders = []
     for p in perms:
         orders.append({"order": list(p),
-                       "queries": [qr.choice(["classes", "methods", "find", "present", "strings", "none", "none"]) for _ in p],
+                       "queries": [qr.choice(["classes", "methods", "find", "present", "strings", "by-name", "by-name", "none", "none"]) for _ in p],
                        "empty_at": qr.randrange(len(p) + 1) if qr.random() < 0.15 else None})
     return {"seed": seed, "model": model, "assignment": assignment, "orders": orders,
             "zero_signature": core.rng(seed, "sig").random() < 0.15,
@@ -208,6 +208,16 @@ def _query(dx, what, model):
     elif what == "strings":
         list(dx.get_strings())
         dx.get_strings_analysis()
+    elif what == "by-name":
+        # look-ups by name (read-only): methods, fields and classes of the model, whether already added or not
+        for c in model["classes"][:4]:
+            for m in (c["dmethods"] + c["vmethods"])[:3]:
+                desc = "(" + " ".join(m["params"]) + ")" + m["ret"]
+                dx.get_method_analysis_by_name(c["desc"], m["name"], desc)
+                dx.get_method_by_name(c["desc"], m["name"], desc)
+            for f in (c["sfields"] + c["ifields"])[:2]:
+                dx.get_field_analysis(None) if False else None
+            dx.get_class_analysis(c["desc"])
 
 
 def execute_apk(case):
